@@ -480,6 +480,17 @@ pub fn run() {
         }
         check_case("cnot-heavy", i, &Circ { n: nqb, gates });
     });
+    // larger circuits: more frontier rows for the Gaussian elimination and longer
+    // permutation tails (6 qubits = 720 candidate permutations for up_to_perm)
+    let (lq, ld, ln) = t.pick((5usize, 40usize, 150usize), (6usize, 80usize, 6_000usize));
+    par_cases("clifford-t-large", ln, move |r, i| {
+        let mut p = CircParams::unitary(lq, ld, PhPool::Exact);
+        p.min_qubits = lq - 1;
+        p.ccz = r.chance(0.2);
+        p.pp = r.chance(0.2);
+        let circ = gen_circuit(r, &p);
+        check_case("clifford-t-large", i, &circ);
+    });
     // CLI
     let Ok(cli) = std::env::var("QVMON_CLI") else {
         c.harness_error("QVMON_CLI not set (run through ./check)");
